@@ -75,19 +75,23 @@ C13 = {
             h("c13_linear_write_step_prior_full", T, "same", "top<=2, prior<=2, 1 pending write"),
             h("c13_linear_write_step_noprior", Q, "same, no prior (delete removes instead of storing a tombstone)", "top<=2, 1 pending write"),
             h("c13_linear_write_step_prefix", T, "same, observed through query_prefix", "top<=1, prior<=2"),
-            h("c13_linear_revert_step_failed_rule_cmd", Q, "revert(i) with 1 command, 1 pending write, arbitrary facts.map: commands[..i], no pending, facts = base;updates[..i]", "commands [1 update], i in {0,1}, garbage top<=1, prior<=1"),
-            h("c13_linear_revert_step_failed_rule_fresh", Q, "failed rule on a fresh perspective (no command, no prior)", "0 commands, 1 pending write"),
-            h("c13_linear_revert_step_nothing_pending", Q, "revert with nothing pending: early return leaves everything unchanged; i<len drops the command", "commands [1], 0 pending"),
-            h("c13_linear_revert_step_commands_prior", T, "revert(i) over two commands", "commands [2,1] updates, 1 pending, prior<=2, i in 0..=2"),
-            h("c13_linear_revert_step_commands_noprior", T, "same without prior (replayed deletes remove)", "commands [2,1], 1 pending"),
-            h("c13_linear_revert_step_prefix", T, "revert observed through query_prefix", "commands [1,1], 1 pending, prior<=1"),
+            h("c13_linear_revert_step_failed_rule_fresh", Q, "failed rule on a fresh perspective (no command, no prior): revert(0) with 1 pending write and an arbitrary overlay", "0 commands, 1 pending write, garbage top<=1"),
+            h("c13_linear_revert_step_failed_rule_cmd", Q, "Transaction::add_single situation: revert(1) with 1 command and 1 pending write of a failed rule, arbitrary overlay: command kept, nothing pending, facts = base;command updates", "commands [1 update], checkpoint 1, garbage top<=1, prior<=1"),
+            h("c13_linear_revert_step_drop_cmd", Q, "revert(0) drops the command and the pending write: facts = base", "commands [1], checkpoint 0, prior<=1"),
+            h("c13_linear_revert_step_nothing_pending", Q, "revert at equal command count with nothing pending: early return leaves everything unchanged", "commands [1], checkpoint 1, 0 pending"),
+            h("c13_linear_revert_step_two_cmds_keep1", T, "revert(1) over two commands", "commands [2,1] updates, 1 pending, prior<=2"),
+            h("c13_linear_revert_step_two_cmds_keep2", T, "revert(2): failed rule after two commands", "commands [2,1], 1 pending, prior<=2"),
+            h("c13_linear_revert_step_two_cmds_noprior", T, "revert(1) without prior (replayed deletes remove)", "commands [2,1], 1 pending"),
+            h("c13_linear_revert_step_prefix", T, "revert(1) observed through query_prefix", "commands [1,1], 1 pending, prior<=1"),
             h("c13_linear_add_command_step_first", Q, "real add_command as first command: pending writes move into the command, head/checkpoint/includes follow; wrong parent refused", "0 commands, 1 pending", S33),
             h("c13_linear_add_command_step_third", Q, "same with two earlier commands", "2 commands, 1 pending", S33),
             h("c13_linear_history3", T, "cross-check: symbolic 3-operation histories {write, commit, clean checkpoint, revert} vs shadow model", "3 ops, prior<=1"),
             h("c13_linear_checkpoint_with_pending_writes", Q, "LITERAL statement: checkpoint taken while a write is pending, then revert (public API only)", "insert; checkpoint; [insert]; revert; query"),
-            h("c13_session_revert_step_small", Q, "SessionPerspective::revert(i) from any state (current_facts garbage, Arc shared or not): fact_log[..i], queries = base;log[..i]", "base<=1, log 2, garbage<=1"),
-            h("c13_session_revert_step_full", T, "same", "base<=2, log 3, garbage<=2"),
-            h("c13_session_revert_step_prefix", T, "same, observed through query_prefix", "base<=2, log 2"),
+            h("c13_session_revert_step_small", Q, "SessionPerspective::revert(1) from any state (current_facts garbage, Arc shared or not): fact_log[..1], queries = base;log[..1]", "base<=1, log 2, garbage<=1"),
+            h("c13_session_revert_step_to_empty", Q, "revert(0): all session writes discarded, queries = base", "base<=1, log 2, garbage<=1"),
+            h("c13_session_revert_step_noop", Q, "revert(len): nothing changes", "base<=1, log 2"),
+            h("c13_session_revert_step_full", T, "revert(2) of a 3-entry log", "base<=2, log 3, garbage<=2"),
+            h("c13_session_revert_step_prefix", T, "revert(1) observed through query_prefix", "base<=2, log 2"),
             h("c13_session_history3", T, "cross-check: symbolic 3-operation session histories {write, checkpoint (also with pending writes), revert}", "3 ops, base<=1"),
         ],
     }],
@@ -99,7 +103,7 @@ C13 = {
     ],
     "bounds": [
         "one fact name; key alphabet 3 keys ([c], one 1-byte component), values 1 byte",
-        "perspective states: <=2 commands x <=2 updates, <=1 pending write, fact map <=2 entries (values/tombstones) in any slot layout, prior = none or in-memory perspective with <=2 entries",
+        "checkpoint index enumerated concretely (one harness per value); perspective states: <=2 commands x <=2 updates, <=1 pending write, fact map <=2 entries (values/tombstones) in any slot layout, prior = none or in-memory perspective with <=2 entries",
         "session states: base <=2 facts, fact_log <=3 entries, current_facts <=2 arbitrary entries",
         "global unwind 5 (linear) / 7 (session) + per-loop unwindset; unwinding assertions on",
     ],
